@@ -344,6 +344,11 @@ def main():
                     inconclusive.append("%s: status %s without a failed check (timeout/oom/crash)" % (short(hid), h["status"]))
                     continue
                 descs = sorted({c["description"] for c in h["failed"]})
+                if any(d.startswith("unwinding assertion") for d in descs):
+                    # a too-small unwind bound is a harness problem: never a pass, never a violation
+                    inconclusive.append("%s: unwinding bound too small (%s)" % (short(hid), "; ".join(
+                        sorted({c["function"] for c in h["failed"] if c["description"].startswith("unwinding")}))))
+                    continue
                 unknown = []
                 for dsc in descs:
                     k = match_known(known, pid, hid, dsc)
@@ -424,6 +429,9 @@ def main():
         if not args.only:
             write_evidence(pid, tier, seed, spec, digest, smt_results, violations, known_lines, inconclusive, validated, kani_wall, wall, exit_code)
         n_ok = sum(1 for h in digest.values() if h["status"] == "Success")
+        if os.environ.get("VERIF_TIMES") or args.only:
+            for hid, h in sorted(digest.items(), key=lambda kv: -kv[1]["duration_ms"]):
+                log("  %-40s %-8s %6.1fs  steps=%s" % (short(hid), h["status"], h["duration_ms"] / 1000.0, h["stats"].get("size_program_expression")))
         log(
             "%s %s: %d/%d harnesses verified, %d smt engines, %d violations, %d known, %d inconclusive, %.0fs"
             % (pid, tier, n_ok, len(digest), len(smt_results), len(violations), len(known_lines), len(inconclusive), wall)
